@@ -15,7 +15,7 @@ inductive Variant | pinned | fixed
 deriving DecidableEq, Repr, Inhabited
 
 /-- `.pinned`: cache key `fmt.Sprintf("%s::%s", s, pattern)`; `.fixed`: struct key (fixes/C10-glob-cache-key.patch). -/
-def activeKey : Variant := .pinned
+def activeKey : Variant := .fixed
 
 def lower (s : Str) : Str := s.map Char.toLower
 
